@@ -621,7 +621,8 @@ pub fn probe(label: &'static str, val: u64) {
     if let Some(me) = me() {
         let mut g = lock();
         if let Some(st) = g.as_mut() {
-            st.log(0x50, label.len() as u64, val);
+            // the value may be an address: it is recorded but kept out of the event-log digest
+            st.log(0x50, label.len() as u64, 0);
             let seq = st.seq;
             st.probes.push(ProbeEvent { seq, thread: me, label, val });
             st.tr(|| format!("t{me} probe {label} {val}"));
